@@ -466,8 +466,8 @@ theorem notify_settles {R} {cfg : Cfg} {reg : Reg} {ctx : Ctx} (hg : RegGood H R
           have hga := hg1.agood a hm
           split
           · simp
-          · have hmem : (anotify H P (!cfg.sql) ctx a).1 ∈ setAmp reg1.amps (anotify H P (!cfg.sql) ctx a).1 :=
-              setAmp_self hm (anotify_hash (H := H) (P := P) (drop := !cfg.sql)).symm
+          · have hmem : (anotify H P false ctx a).1 ∈ setAmp reg1.amps (anotify H P false ctx a).1 :=
+              setAmp_self hm (anotify_hash (H := H) (P := P) (drop := false)).symm
             refine ⟨?_, ?_⟩
             · intro kind p ht hrep
               simp at hrep
@@ -593,11 +593,11 @@ theorem setAmp_mono {d : Bool} {amps : List AmpInv} (hn : (amps.map (·.hash)).N
     (`AMonoD`, `akeep`). -/
 theorem step_monoD {R} {cfg : Cfg} {reg : Reg} {e : Event} (hg : RegGood H R reg) :
     (∀ i ∈ reg.invs, ∃ i' ∈ (step H P cfg reg e).1.invs, Mono i i') ∧
-    (∀ a ∈ reg.amps, ∃ a' ∈ (step H P cfg reg e).1.amps, AMonoD (!cfg.sql) a a') := by
+    (∀ a ∈ reg.amps, ∃ a' ∈ (step H P cfg reg e).1.amps, AMonoD false a a') := by
   have idI : ∀ (r : Reg), (∀ i ∈ reg.invs, i ∈ r.invs) → ∀ i ∈ reg.invs, ∃ i' ∈ r.invs, Mono i i' :=
     fun r hs i hi => ⟨i, hs i hi, Mono.refl i⟩
   have idA : ∀ (r : Reg), (∀ i ∈ reg.amps, i ∈ r.amps) →
-      ∀ a ∈ reg.amps, ∃ a' ∈ r.amps, AMonoD (!cfg.sql) a a' :=
+      ∀ a ∈ reg.amps, ∃ a' ∈ r.amps, AMonoD false a a' :=
     fun r hs i hi => ⟨i, hs i hi, (AMono.refl i).toD _⟩
   cases e with
   | addInvoice s =>
@@ -636,7 +636,7 @@ theorem step_monoD {R} {cfg : Cfg} {reg : Reg} {e : Event} (hg : RegGood H R reg
             · refine ⟨fun i hi => ⟨i, hsub.1 i hi, Mono.refl i⟩, ?_⟩
               intro b hb
               exact setAmp_mono hg1.anodup (findAmp_some hfa).1
-                (anotify_monoD (H := H) (P := P) (drop := !cfg.sql) (ctx := ctx)) b (hsub.2 b hb)
+                (anotify_monoD (H := H) (P := P) (drop := false) (ctx := ctx)) b (hsub.2 b hb)
   | settle p =>
     simp only [step]
     unfold settleHodl
@@ -679,16 +679,15 @@ theorem step_monoD {R} {cfg : Cfg} {reg : Reg} {e : Event} (hg : RegGood H R reg
       rw [List.map_map]
       exact List.mem_map.mpr ⟨a, ha, rfl⟩
 
-/-- one event on the native SQL store: nothing is forgotten. -/
-theorem step_mono {R} {cfg : Cfg} {reg : Reg} {e : Event} (hg : RegGood H R reg)
-    (hsql : cfg.sql = true) :
+/-- one event, either store: nothing is forgotten (since lnd 4ae3b4a the kv store keeps the recorded
+    htlcs of a settled AMP set as well). -/
+theorem step_mono {R} {cfg : Cfg} {reg : Reg} {e : Event} (hg : RegGood H R reg) :
     (∀ i ∈ reg.invs, ∃ i' ∈ (step H P cfg reg e).1.invs, Mono i i') ∧
     (∀ a ∈ reg.amps, ∃ a' ∈ (step H P cfg reg e).1.amps, AMono a a') := by
   obtain ⟨h1, h2⟩ := step_monoD (P := P) (cfg := cfg) (e := e) hg
   refine ⟨h1, ?_⟩
   intro a ha
   obtain ⟨a', hm, hd⟩ := h2 a ha
-  rw [hsql] at hd
   exact ⟨a', hm, hd.mono⟩
 
 end LndModel.C15
